@@ -431,8 +431,11 @@ class BasicBlock(Value):
         if self.__replacements:
             self.__Replace()
 
-            # Our uses may have changed, so we need to update them
-            self.UpdateUses()
+            # The uses of the whole function have to be up to date (not only
+            # ours: an earlier pass can have exchanged instructions for
+            # copies anywhere), as the users of a replaced instruction are
+            # looked up in the function
+            self.Parent.UpdateUses()
 
             # We need to update all uses of a replaced instruction as well, as we
             # reference instructions directly and otherwise the references would
